@@ -8,6 +8,7 @@ mod c02;
 mod c03;
 mod c06;
 mod c07;
+mod c09;
 mod c11;
 mod c12;
 mod c14;
@@ -48,7 +49,9 @@ pub fn exec_line(line: &str) -> String {
             } else {
                 "?".to_string()
             };
-            if msg.starts_with("bad-op") {
+            if msg.starts_with("bad-op stream-exhausted") {
+                "Exhausted".to_string()
+            } else if msg.starts_with("bad-op") {
                 "bad-op".to_string()
             } else {
                 format!("PANIC:{}", util::panic_kind(&msg))
@@ -91,6 +94,7 @@ fn oracle(prop: &str, op: &[&str], out: &str) -> Verdict {
         "C06" => c06::oracle(op, out),
         "C11" => c11::oracle(op, out),
         "C02" => c02::oracle(op, out),
+        "C09" => c09::oracle(op, out),
         "C03" => c03::oracle(op, out),
         "C14" => c14::oracle(op, out),
         _ => Verdict::NotApplicable,
@@ -104,6 +108,7 @@ fn generate(prop: &str, tier: &str, rng: &mut util::Prng) -> Vec<Case> {
         "C06" => c06::generate(tier, rng),
         "C11" => c11::generate(tier, rng),
         "C02" => c02::generate(tier, rng),
+        "C09" => c09::generate(tier, rng),
         "C03" => c03::generate(tier, rng),
         "C14" => c14::generate(tier, rng),
         _ => {
